@@ -196,8 +196,11 @@ def cycle (cfg : Cfg) (P : Store) (now now1 : Tick) (exec : Id → Nat → Outco
   else
     let st0 := withHandlers (fromStorage P cfg.owned) cfg.selected cfg.reason now
     let ex := hasExtras st0 (known cfg) cfg.reason
+    -- the selected handlers are re-purposed if anything carries another purpose; the purge happens only
+    -- if something still does AFTERWARDS ("extras are recalculated!"): i.e. a record of a handler that
+    -- is not selected any more
     let st1 := if ex then repurpose st0 cfg.selected cfg.reason else st0
-    let P1 := if ex then purge P st1 cfg.owned (known cfg) else P
+    let P1 := if hasExtras st1 (known cfg) cfg.reason then purge P st1 cfg.owned (known cfg) else P
     if cfg.selected.isEmpty then
       -- the `skip` path: nothing to run; the cycle is closed and whatever records the owned
       -- handlers left behind (they are not selected any more) are purged with it
@@ -208,6 +211,19 @@ def cycle (cfg : Cfg) (P : Store) (now now1 : Tick) (exec : Id → Nat → Outco
       let d := done r.st (known cfg)
       let P3 := if d then purge P2 r.st cfg.owned (known cfg) else P2
       { invoked := r.invoked, P' := P3, closed := d, delays := delays r.st (known cfg).eraseDups now1 }
+
+/-- The ids whose outcome in this pass is final (success, permanent failure, or the timeout/retries
+    outcome produced without invoking): `[id for id in outcomes if outcomes[id].final]`.
+    The same pipeline as `cycle`, kept apart so that `CycleResult` stays as it is. -/
+def cycleFinals (cfg : Cfg) (P : Store) (now : Tick) (exec : Id → Nat → Outcome) : List Id :=
+  if !handlerReasons.contains cfg.reason || cfg.selected.isEmpty then []
+  else
+    let st0 := withHandlers (fromStorage P cfg.owned) cfg.selected cfg.reason now
+    let st1 := if hasExtras st0 (known cfg) cfg.reason then repurpose st0 cfg.selected cfg.reason else st0
+    let todo := cfg.selected.filter (fun i => match st1 i with | some h => h.r.awakened now | none => false)
+    (plan cfg.lifecycle st1 todo).filter (fun i => match st1 i with
+      | some h => (if precheckFails (cfg.limits i) h.r now then precheckOutcome else exec i h.r.retries).final
+      | none => false)
 
 /-! ### Sub-handlers: `subhandling.execute()`
 
